@@ -239,9 +239,10 @@ def send_loop(rep, u):
             if ev[0] != "elem":
                 continue
             for n, ps in walk(ev[2]):
-                if n.get("k") == "un" and n["op"] in ("post++", "pre++", "post--", "pre--"):
-                    k = key(core.strip_casts(n["e"]))
-                    incs[k] = incs.get(k, 0) + (1 if "++" in n["op"] else -1)
+                st_ = core.step_of(n)
+                if st_ is not None and abs(st_[1]) == 1:
+                    k = key(core.strip_casts(st_[0]))
+                    incs[k] = incs.get(k, 0) + st_[1]
                 if n.get("k") == "call" and n.get("fn") == "tpt_msg_send":
                     nsend += 1
         per_path.append((nsend, {k: v for k, v in incs.items() if v != 0}))
@@ -277,7 +278,7 @@ def send_loop(rep, u):
             if ev[0] != "elem":
                 continue
             for n, ps in walk(ev[2]):
-                if n.get("k") == "un" and n["op"] in ("post++", "pre++") and key(core.strip_casts(n["e"])) == sentk:
+                if core.step_of(n) is not None and core.step_of(n)[1] == 1 and key(core.strip_casts(core.step_of(n)[0])) == sentk:
                     order.append(("inc", n.get("ln")))
                 if n.get("k") == "call" and n.get("fn") == "tpt_msg_send":
                     order.append(("send", n.get("ln")))
@@ -363,7 +364,8 @@ def completion(rep, u):
     fo = tp.need(u, "tpt_msg_one_by_one_proxy_cb")
     rep.functions.add(fo.name)
     cb = [pos for pos, root, c, ps in fo.nodes() if c.get("k") == "call" and "callee" in c and key(c["callee"]).endswith("->msg_cb")]
-    inc = [pos for pos, root, x, ps in fo.nodes() if x.get("k") == "un" and "++" in x["op"] and key(x["e"]).endswith("cur_thr_idx")]
+    inc = [pos for pos, root, x, ps in fo.nodes() if core.step_of(x) is not None and core.step_of(x)[1] == 1 and
+           key(core.strip_casts(core.step_of(x)[0])).endswith("cur_thr_idx")]
     nxt = [pos for pos, root, c, ps in fo.calls({"tpt_msg_one_by_one_send_next__int"})]
     ok = len(cb) == 1 and inc and nxt and fo.pos_dominates(cb[0], inc[0]) and fo.pos_dominates(inc[0], nxt[0]) and \
         cb[0][0] not in fo.reach_from(fo.blocks[nxt[0][0]].rsucc())
